@@ -1,7 +1,8 @@
 (* C08 - the source-derived fact table (gen/Facts.v, regenerated from the working tree on
    every run by props/C08/factgen.py) agrees with the table the theorems are about. *)
 From Common Require Import Prelude.
-From C08 Require Import Model FactsCheck.
+From C08 Require Import Model Proofs ProofsLift ProofsHist ProofsConc ProofsCmp FactsCheck.
+Local Open Scope Z_scope.
 
 (* on every abstract configuration (receiver null / A; argument null / A / B, as a handle, as
    the receiver itself, as a shared entry, as a raw pointer) every member extracted from
@@ -11,3 +12,95 @@ From C08 Require Import Model FactsCheck.
 Theorem facts_match : check gen_table gen_rc = true.
 Proof. exact facts_match_lemma. Qed.
 Print Assumptions facts_match.
+
+(* the per-member contracts hold for the table extracted from the current source *)
+Theorem contracts_src : contracts_ok gen_table = true.
+Proof. exact contracts_src_lemma. Qed.
+Print Assumptions contracts_src.
+
+(* ---- the history theorems about the machines that run the EXTRACTED table ---- *)
+Theorem seq_count_is_creator_plus_handles_src : forall n l o, let s := run_t gen_table n l in
+  is_alive s o = true -> use_count s o = creator (getobj (s_heap s) o) + nh (s_hs s) o.
+Proof. exact (seq_count_eq gen_table contracts_src_lemma). Qed.
+Print Assumptions seq_count_is_creator_plus_handles_src.
+
+Theorem seq_no_error_state_src : forall n l, err (s_heap (run_t gen_table n l)) = false.
+Proof. exact (seq_no_error gen_table contracts_src_lemma). Qed.
+Print Assumptions seq_no_error_state_src.
+
+Theorem seq_alive_iff_referenced_src : forall n l o, let s := run_t gen_table n l in
+  is_alive s o = true <-> 1 <= creator (getobj (s_heap s) o) + nh (s_hs s) o.
+Proof. exact (ProofsHist.seq_alive_iff_referenced gen_table contracts_src_lemma). Qed.
+Print Assumptions seq_alive_iff_referenced_src.
+
+Theorem seq_handle_target_alive_src : forall n l h o, let s := run_t gen_table n l in
+  handle_ptr s h = Some o -> is_alive s o = true.
+Proof. exact (seq_no_dangling gen_table contracts_src_lemma). Qed.
+Print Assumptions seq_handle_target_alive_src.
+
+Theorem seq_destroyed_exactly_once_src : forall n l o, let s := run_t gen_table n l in
+  dels (log (s_heap s)) o =
+  if Nat.ltb o (length (objs (s_heap s))) && negb (is_alive s o) then 1 else 0.
+Proof. exact (ProofsHist.seq_destroyed_exactly_once gen_table contracts_src_lemma). Qed.
+Print Assumptions seq_destroyed_exactly_once_src.
+
+Theorem seq_destroyed_by_last_release_src : forall n l op o,
+  let s := run_t gen_table n l in let s' := fst (step_t gen_table s op) in
+  is_alive s o = true ->
+  (is_alive s' o = false <-> creator (getobj (s_heap s') o) + nh (s_hs s') o = 0) /\
+  dels (log (s_heap s')) o = dels (log (s_heap s)) o + (if is_alive s' o then 0 else 1).
+Proof. exact (seq_destroyed_at_last_release gen_table contracts_src_lemma). Qed.
+Print Assumptions seq_destroyed_by_last_release_src.
+
+Theorem handles_equal_iff_same_object_src : forall n l a b, let s := run_t gen_table n l in
+  (handle_eq s a b = true <-> handle_ptr s a = handle_ptr s b) /\
+  handle_ne s a b = negb (handle_eq s a b) /\
+  (forall o, handle_ptr s a = Some o -> handle_eq s a b = true ->
+             handle_ptr s b = Some o /\ is_alive s o = true).
+Proof. exact (seq_handle_eq_iff gen_table contracts_src_lemma). Qed.
+Print Assumptions handles_equal_iff_same_object_src.
+
+Theorem conc_count_with_transients_src : forall g o, reach gen_table g ->
+  err (g_heap g) = false /\
+  cnt (getobj (g_heap g) o) =
+    creator (getobj (g_heap g) o) + nhz (g_fz g) o + sum_handles (g_ths g) o + sum_trans (g_fz g) (g_ths g) o /\
+  alive (getobj (g_heap g) o) = (1 <=? cnt (getobj (g_heap g) o)).
+Proof. exact (conc_count_eq gen_table contracts_src_lemma). Qed.
+Print Assumptions conc_count_with_transients_src.
+
+Theorem conc_count_when_quiescent_src : forall g o, reach gen_table g -> Forall idle (g_ths g) ->
+  cnt (getobj (g_heap g) o) = creator (getobj (g_heap g) o) + nhz (g_fz g) o + sum_handles (g_ths g) o.
+Proof. exact (conc_quiescent gen_table contracts_src_lemma). Qed.
+Print Assumptions conc_count_when_quiescent_src.
+
+Theorem conc_touched_object_alive_src : forall g t th m rem o, reach gen_table g ->
+  nth_error (g_ths g) t = Some th -> t_rem th = m :: rem ->
+  (exists gd p, (m = MInc gd p \/ m = MDec gd p) /\ eval (g_fz g) (t_fr th) (t_hs th) p = Some o) ->
+  alive (getobj (g_heap g) o) = true.
+Proof. exact (conc_touch_alive gen_table contracts_src_lemma). Qed.
+Print Assumptions conc_touched_object_alive_src.
+
+Theorem conc_destroyed_exactly_once_src : forall g o, reach gen_table g ->
+  dels (log (g_heap g)) o = (if Nat.ltb o (length (objs (g_heap g))) && negb (alive (getobj (g_heap g) o)) then 1 else 0) /\
+  (alive (getobj (g_heap g) o) = false -> cnt (getobj (g_heap g) o) = 0 /\ creator (getobj (g_heap g) o) = 0 /\
+                                         nhz (g_fz g) o + sum_hold (g_fz g) (g_ths g) o = 0).
+Proof. exact (conc_delete_once gen_table contracts_src_lemma). Qed.
+Print Assumptions conc_destroyed_exactly_once_src.
+
+(* ---- comparison operators and accessors, as extracted from the source ---- *)
+Theorem cmp_facts_match : cmp_ok gen_cmp = true.
+Proof. exact cmp_facts_lemma. Qed.
+Print Assumptions cmp_facts_match.
+
+(* with any injective assignment of addresses to pointer values, the extracted operator== and
+   operator!= compute the model's handle_eq / handle_ne (equal exactly when same object or both
+   null), the extracted operator< is the order of the two addresses, and operator bool / -> / *
+   read ptr *)
+Theorem comparisons_src : forall (addr : option id -> Z), (forall p q, addr p = addr q -> p = q) ->
+  forall s a b,
+    ceval (c_eq gen_cmp) (addr (handle_ptr s a)) (addr (handle_ptr s b)) = handle_eq s a b /\
+    ceval (c_ne gen_cmp) (addr (handle_ptr s a)) (addr (handle_ptr s b)) = handle_ne s a b /\
+    ceval (c_lt gen_cmp) (addr (handle_ptr s a)) (addr (handle_ptr s b)) = (addr (handle_ptr s a) <? addr (handle_ptr s b)) /\
+    a_bool gen_cmp = true /\ a_arrow gen_cmp = true /\ a_deref gen_cmp = true.
+Proof. exact (cmp_model gen_cmp cmp_facts_lemma). Qed.
+Print Assumptions comparisons_src.
